@@ -404,6 +404,12 @@ pub fn scenarios(tier: Tier) -> Vec<Scenario> {
         vec![Op::New(0, acc)],
         vec![vec![Op::Enter(0), Op::Hit(c.clone())], vec![Op::Rebuild], vec![Op::New(1, rej)]],
     );
+    // S10: two recomputations of the global maximum level race (a rebuild, or another collector's
+    // creation, against the creation of a more verbose collector): the published maximum must not
+    // end up below the more verbose collector's hint
+    let verbose = spec(5, false, 0); // static, hint TRACE
+    add("S10 rebuild||new(verbose)", vec![Op::New(0, rej)], vec![vec![Op::Rebuild], vec![Op::New(1, verbose), Op::Enter(1), Op::Hit(c2.clone())]]);
+    add("S10 new(quiet)||new(verbose)", vec![], vec![vec![Op::New(0, rej)], vec![Op::New(1, verbose), Op::Enter(1), Op::Hit(c2.clone())]]);
     // S6: unscoped first hit || set_global_default
     for (n, k) in [("acc", acc), ("rej", rej)] {
         add(
